@@ -42,9 +42,17 @@ def main():
     keep = sys.argv[sys.argv.index("--keep") + 1] if "--keep" in sys.argv else None
     patch, equiv = d / f"patch{X}.diff", d / f"equiv{X}.py"
     out = {"dir": str(d), "variant": X}
-    wt = Path(tempfile.mkdtemp(prefix="twinverify_", dir="/tmp"))
-    shutil.rmtree(wt)
-    sh(f"git -C /repo worktree add -q --detach {wt} HEAD")
+    reuse = os.environ.get("TWIN_WT")  # a differential test that insists on the path of the author's worktree
+    if reuse:
+        wt = Path(reuse)
+        rc, o = sh("git status --porcelain", cwd=wt)
+        if o.strip():
+            print("refusing: worktree not clean")
+            return 2
+    else:
+        wt = Path(tempfile.mkdtemp(prefix="twinverify_", dir="/tmp"))
+        shutil.rmtree(wt)
+        sh(f"git -C /repo worktree add -q --detach {wt} HEAD")
     env = dict(os.environ, PYTHONPATH=str(wt))
     try:
         rc, o = sh(f"/venv/bin/python {equiv}", cwd=wt, env=env)
@@ -69,7 +77,10 @@ def main():
         # known findings of the unchanged tree print KNOWN-FINDING and exit 0, so anything here is new
         out["checks_not_silent"] = fired
     finally:
-        sh(f"git -C /repo worktree remove --force {wt}")
+        if reuse:
+            sh("git checkout -- . && git clean -fdq", cwd=wt)
+        else:
+            sh(f"git -C /repo worktree remove --force {wt}")
     print(json.dumps(out, indent=1))
     if keep and out.get("confirmed"):
         dst = Path("/verif/seeded/twins") / keep
